@@ -6,8 +6,9 @@ set -u
 export GOFLAGS=-mod=mod GOPROXY=off GOSUMDB=off GOTOOLCHAIN=local
 S=$(mktemp -d /var/tmp/verif-baseline-XXXXXX)
 trap 'rm -rf "$S"' EXIT
-cp /repo/go.mod "$S/go.mod"; cp /repo/go.sum "$S/go.sum"
-(cd /repo && go test -modfile="$S/go.mod" -json -vet=off -count=1 -timeout 25m ./... > "$S/out.json" 2> "$S/err.txt")
+R=${VERIF_REPO:-/repo}
+cp $R/go.mod "$S/go.mod"; cp $R/go.sum "$S/go.sum"
+(cd $R && go test -modfile="$S/go.mod" -json -vet=off -count=1 -timeout 25m ./... > "$S/out.json" 2> "$S/err.txt")
 python3 - "$S/out.json" <<'PY'
 import json, sys
 base = json.load(open('/root/.vp/BASELINE.json'))
